@@ -1,7 +1,7 @@
 (* C11 — every sentence of the CDCN grammar is accepted with its intended meaning.
    Statements only; the proofs are in LiteralProofs.v, ParserProofs.v, CdcnProofs.v, Grammar.v. *)
 From Coq Require Import String.
-From Verif Require Import Base Params Value Lexer Literals Parser LexerProofs ParserProofs CdcnProofs LiteralProofs ParseRun Grammar.
+From Verif Require Import Base Params Value Lexer Literals Parser LexerProofs ParserProofs CdcnProofs LiteralProofs ParseRun Grammar LexBridge.
 Close Scope string_scope.
 Open Scope Z_scope.
 
@@ -63,6 +63,33 @@ Proof. exact accepts_meaning. Qed.
 Theorem C11_parser_sound_partial : forall d, In d (level1 ++ level2) -> rejects d = true.
 Proof. exact parser_sound_partial. Qed.
 
+(* character level, per token class (the bridge to the formatter's text, C10): a well-formed
+   text of the class followed by a separator (end, space, newline, delimiter) is scanned as
+   exactly that class with exactly that length.  Partial: floats, complex numbers, runes and
+   strings are covered by the correspondence only. *)
+Theorem C11_first_integer : forall ds rest, int_text ds -> sep_start rest ->
+  try_types scan_order_t (ds ++ rest) = Some (TInteger, length ds).
+Proof. exact first_integer. Qed.
+Theorem C11_first_hexadecimal : forall hs rest, hs <> [] -> forallb is_hex hs = true -> sep_start rest ->
+  try_types scan_order_t (48 :: 120 :: hs ++ rest) = Some (THexadecimal, (2 + length hs)%nat).
+Proof. exact first_hex. Qed.
+Theorem C11_first_type : forall name rest, In name type_names ->
+  try_types scan_order_t (zs name ++ rest) = Some (TType, String.length name).
+Proof. exact first_type. Qed.
+Theorem C11_first_delimiter : forall c rest, is_delim c = true -> c <> 40 ->
+  try_types scan_order_t (c :: rest) = Some (TDelimiter, 1%nat).
+Proof. exact first_delim_not_paren. Qed.
+Theorem C11_first_open_paren_before_type : forall name rest, In name type_names ->
+  try_types scan_order_t (40 :: zs name ++ rest) = Some (TDelimiter, 1%nat).
+Proof. exact first_open_paren_type. Qed.
+Theorem C11_first_words : forall rest,
+  try_types scan_order_t (zs "true" ++ rest) = Some (TBoolean, 4%nat) /\
+  try_types scan_order_t (zs "false" ++ rest) = Some (TBoolean, 5%nat) /\
+  try_types scan_order_t (zs "nil" ++ rest) = Some (TNil, 3%nat) /\
+  try_types scan_order_t (10 :: rest) = Some (TEOL, 1%nat) /\
+  try_types scan_order_t (32 :: rest) = Some (TSpace, S (span is_space rest)).
+Proof. exact first_words. Qed.
+
 (* non-vacuity and the remaining literal classes by computation (every escape form is an
    Example of LiteralProofs.v) *)
 Example C11_ex_boundary_integers :
@@ -94,3 +121,9 @@ Print Assumptions C11_hexadecimal_range.
 Print Assumptions C11_parser_complete_partial.
 Print Assumptions C11_accepts_means.
 Print Assumptions C11_parser_sound_partial.
+Print Assumptions C11_first_integer.
+Print Assumptions C11_first_hexadecimal.
+Print Assumptions C11_first_type.
+Print Assumptions C11_first_delimiter.
+Print Assumptions C11_first_open_paren_before_type.
+Print Assumptions C11_first_words.
